@@ -3,6 +3,7 @@ import GeoVerif.Driver.Geom
 import GeoVerif.Driver.Merge
 import GeoVerif.Driver.Box
 import GeoVerif.Driver.Grid
+import GeoVerif.Driver.Survey
 open Lean GeoVerif.Driver
 
 structure DSt where
@@ -19,6 +20,7 @@ def stepLine (st : DSt) (line : String) : DSt × String :=
     | "merge" => (st, (MergeD.handle j).compress)
     | "box" => (st, (BoxD.handle j).compress)
     | "grid" => (st, (GridD.handle j).compress)
+    | "survey" => (st, (SurveyD.handle j).compress)
     | _ => (st, "\"bad-model\"")
 
 partial def loop (h : IO.FS.Stream) (out : IO.FS.Stream) (st : DSt) : IO Unit := do
